@@ -13,6 +13,13 @@
 //!   * hand-folded `recv()` stream (independent re-implementation of the documented event
 //!     semantics): contents equal, initial value complete, `Done` seen ⇔ `done()` called;
 //!   * at the end `detach()` yields the same contents.
+//!
+//! The hand consumer does not always await a `recv()` to completion: driven by the case's cyclic
+//! `hand_cancel` list it polls the `recv()` future a generated number of times, drops it while it
+//! is still pending (like a `select!` whose other branch fires) and calls `recv()` again. The
+//! cancelled-and-reissued stream must be the same stream: no lost / duplicated / reordered event
+//! or initial-value element, and `InitialComplete` exactly when the folded value equals the
+//! observable's contents at the subscription point (documented meaning of the event).
 
 use proptest::prelude::*;
 use serde::{de::DeserializeOwned, Deserialize, Serialize};
@@ -31,7 +38,7 @@ use crate::engine::{
     gen::{self, connect_pair, sched, GCfg, Sched},
     link::SimLink,
     runner::{self, Outcome, Report, Tier},
-    sim::{self, spawn_actor, tape_pause, Tape},
+    sim::{self, spawn_actor, tape_pause, CancelAfter, Cancelled, Tape},
 };
 use remoc::{rch::base, robs, RemoteSend};
 
@@ -96,6 +103,12 @@ pub struct Case<O> {
     pub subs: Vec<SubPoint>,
     /// Intermediate checkpoints (position selectors like `SubPoint::at`).
     pub checks: Vec<u8>,
+    /// Cyclic list of poll budgets for the hand consumers' `recv()` calls: the n-th `recv()`
+    /// future of a consumer is dropped when it is polled again after having been pending
+    /// `budget` times (`sim::CancelAfter`), then `recv()` is called anew; 0 = awaited to
+    /// completion. Empty (old replay files) = never cancelled.
+    #[serde(default)]
+    pub hand_cancel: Vec<u8>,
     pub sched: Sched,
     pub cfg_a: GCfg,
     pub cfg_b: GCfg,
@@ -217,6 +230,12 @@ pub struct HandState<S> {
     pub error: Option<String>,
     pub events: u64,
     pub flags: (bool, bool),
+    /// `recv()` futures dropped while pending (after >= 1 pending poll) and re-issued.
+    pub cancels: u32,
+    /// ... of these, while the incremental initial value was still loading.
+    pub cancels_initial: u32,
+    /// Events delivered by a `recv()` that was issued after a cancellation.
+    pub events_after_cancel: u32,
 }
 
 pub trait Kind: Sized + 'static {
@@ -331,12 +350,16 @@ pub fn strategy<K: Kind>(_tier: Tier) -> BoxedStrategy<Case<K::Op>> {
                 any::<bool>(),
                 proptest::collection::vec(subpoint_strategy::<K>(max_hops, done), 1..=3),
                 proptest::collection::vec(any::<u8>(), 0..=2),
+                prop_oneof![
+                    1 => Just(Vec::new()),
+                    4 => proptest::collection::vec(prop_oneof![3 => Just(0u8), 4 => Just(1u8), 2 => Just(2u8), 1 => Just(3u8)], 1..=6),
+                ],
                 sched(true),
                 gcfg_c13(),
                 gcfg_c13(),
             )
         })
-        .prop_map(|(init, ops, done, done_twice, mut subs, checks, sched, cfg_a, cfg_b)| {
+        .prop_map(|(init, ops, done, done_twice, mut subs, checks, hand_cancel, sched, cfg_a, cfg_b)| {
             if EXCLUDE_INCREMENTAL_AFTER_DONE && done {
                 // A late second-level subscription is taken at the first checkpoint at or after the
                 // subscription point; without an intermediate one that is the final checkpoint,
@@ -352,7 +375,7 @@ pub fn strategy<K: Kind>(_tier: Tier) -> BoxedStrategy<Case<K::Op>> {
                     }
                 }
             }
-            Case { init, ops, done, done_twice, subs, checks, sched, cfg_a, cfg_b }
+            Case { init, ops, done, done_twice, subs, checks, hand_cancel, sched, cfg_a, cfg_b }
         })
         .boxed()
 }
@@ -462,7 +485,23 @@ struct Slot<K: Kind> {
     hand: Option<Arc<Mutex<HandState<K::Snap>>>>,
 }
 
-async fn hand_loop<K: Kind>(conns: Vec<Arc<AMutex<Conn<K::Sub>>>>, hops: usize, sub: K::Sub, st: Arc<Mutex<HandState<K::Snap>>>, tape: Tape) {
+/// Budget of pending polls for the `n`-th `recv()` future of a hand consumer (None = await to
+/// completion).
+fn cancel_budget(list: &[u8], n: usize) -> Option<u32> {
+    if list.is_empty() {
+        return None;
+    }
+    match list[n % list.len()].min(3) {
+        0 => None,
+        b => Some(b as u32),
+    }
+}
+
+#[allow(clippy::too_many_arguments)]
+async fn hand_loop<K: Kind>(
+    conns: Vec<Arc<AMutex<Conn<K::Sub>>>>, hops: usize, sub: K::Sub, st: Arc<Mutex<HandState<K::Snap>>>, tape: Tape, at_sub: K::Snap, cancel: Vec<u8>,
+    offset: usize,
+) {
     let mut sub = match ship(&conns, 0, hops, sub).await {
         Ok(s) => s,
         Err(e) => {
@@ -472,7 +511,13 @@ async fn hand_loop<K: Kind>(conns: Vec<Arc<AMutex<Conn<K::Sub>>>>, hops: usize, 
     };
     let mut fold = match K::take_initial(&mut sub) {
         Some(f) => {
-            st.lock().unwrap().complete += 1;
+            let mut g = st.lock().unwrap();
+            g.complete += 1;
+            if K::snap(&f) != at_sub {
+                g.snap = Some(K::snap(&f));
+                g.error = Some(format!("initial value: take_initial() gives {:?} but the observable held {at_sub:?} when the subscription was taken", K::snap(&f)));
+                return;
+            }
             f
         }
         None => K::empty_fold(),
@@ -482,17 +527,54 @@ async fn hand_loop<K: Kind>(conns: Vec<Arc<AMutex<Conn<K::Sub>>>>, hops: usize, 
         g.snap = Some(K::snap(&fold));
         g.flags = K::sub_flags(&sub);
     }
+    // Number of recv() futures created so far (index into the cyclic budget list).
+    let mut issued = offset;
     loop {
         tape_pause(&tape, false).await;
-        let r = K::recv(&mut sub).await;
+        let mut reissued = false;
+        let r = loop {
+            let budget = cancel_budget(&cancel, issued);
+            issued += 1;
+            // With a budget >= 1 the future is dropped only after it returned Pending at least
+            // once, at its next wake-up: every iteration awaits a wake-up, no busy loop.
+            match CancelAfter::new(K::recv(&mut sub), budget).await {
+                Cancelled::Done(r) => break r,
+                Cancelled::Dropped => {
+                    reissued = true;
+                    let loading = !K::sub_flags(&sub).0;
+                    let mut g = st.lock().unwrap();
+                    g.cancels += 1;
+                    if loading {
+                        g.cancels_initial += 1;
+                    }
+                }
+            }
+        };
         let mut g = st.lock().unwrap();
         g.flags = K::sub_flags(&sub);
         match r {
             Ok(Some(ev)) => {
                 g.events += 1;
+                if reissued {
+                    g.events_after_cancel += 1;
+                }
                 match K::fold(&mut fold, ev) {
                     Ok(Mark::Change) => g.snap = Some(K::snap(&fold)),
-                    Ok(Mark::Complete) => g.complete += 1,
+                    Ok(Mark::Complete) => {
+                        g.complete += 1;
+                        // "The incremental subscription has reached the value of the observed
+                        // collection at the time it was subscribed."
+                        if g.complete == 1 && K::snap(&fold) != at_sub {
+                            g.error = Some(format!(
+                                "initial value: InitialComplete after {} events ({} recv() cancellations, {} while loading) with folded value {:?}, but the observable held {at_sub:?} when the subscription was taken",
+                                g.events,
+                                g.cancels,
+                                g.cancels_initial,
+                                K::snap(&fold)
+                            ));
+                            return;
+                        }
+                    }
                     Ok(Mark::Done) => g.done_seen += 1,
                     Err(e) => {
                         g.error = Some(format!("event stream inconsistent: {e}"));
@@ -626,10 +708,15 @@ async fn execute<K: Kind>(case: &Case<K::Op>) -> Res {
             if let ConsumerKind::MirrorOfMirror { hops, .. } = &mut sp.consumer {
                 *hops = (*hops).min(need as u8 - sp.hops);
             }
-            if let Ok(current) = sim::within(BIG, K::contents(&obs)).await {
-                if K::snap_len(&current) > 0 && !done_called {
-                    initial_nonempty_sub = true;
+            let at_sub = match sim::within(BIG, K::contents(&obs)).await {
+                Ok(current) => current,
+                Err(()) => {
+                    fail!("observable-borrow-hangs", "reading the observable's contents timed out");
+                    return res;
                 }
+            };
+            if K::snap_len(&at_sub) > 0 && !done_called {
+                initial_nonempty_sub = true;
             }
             let sub = K::subscribe(&obs, sp.incremental);
             if !done_called {
@@ -649,9 +736,21 @@ async fn execute<K: Kind>(case: &Case<K::Op>) -> Res {
             ));
             match sp.consumer {
                 ConsumerKind::Hand => {
-                    let st = Arc::new(Mutex::new(HandState { snap: None, complete: 0, done_seen: 0, ended: false, error: None, events: 0, flags: (false, false) }));
+                    let st = Arc::new(Mutex::new(HandState {
+                        snap: None,
+                        complete: 0,
+                        done_seen: 0,
+                        ended: false,
+                        error: None,
+                        events: 0,
+                        flags: (false, false),
+                        cancels: 0,
+                        cancels_initial: 0,
+                        events_after_cancel: 0,
+                    }));
                     slot.hand = Some(st.clone());
-                    spawn_actor(hand_loop::<K>(net.conns.clone(), sp.hops as usize, sub, st, tape.clone()));
+                    res.classes.push(if case.hand_cancel.iter().any(|b| *b > 0) { "hand-cancel:generated".into() } else { "hand-cancel:not-generated".to_string() });
+                    spawn_actor(hand_loop::<K>(net.conns.clone(), sp.hops as usize, sub, st, tape.clone(), at_sub, case.hand_cancel.clone(), idx));
                 }
                 ConsumerKind::Mirror | ConsumerKind::MirrorOfMirror { .. } => {
                     if let ConsumerKind::MirrorOfMirror { incremental, hops, late } = sp.consumer {
@@ -769,12 +868,14 @@ async fn execute<K: Kind>(case: &Case<K::Op>) -> Res {
                 }
                 if let Some(h) = &slot.hand {
                     let g = h.lock().unwrap().clone();
+                    let cn = format!("{} pending recv() futures were dropped and re-issued, {} of them while the initial value was loading", g.cancels, g.cancels_initial);
                     if let Some(e) = &g.error {
-                        fail!(sig_for::<K>(case, slot, "hand-error"), "{d}: {e}; folded so far {:?}, observable holds {expected:?}", g.snap);
+                        let sig = if e.starts_with("initial value:") { "hand-initial-value" } else { "hand-error" };
+                        fail!(sig_for::<K>(case, slot, sig), "{d}: {e}; folded so far {:?}, observable holds {expected:?}; {cn}", g.snap);
                     } else if g.snap.as_ref() != Some(&expected) {
-                        fail!(sig_for::<K>(case, slot, "hand-differs"), "{d}: at quiescence before step {step} folding {} events by hand gives {:?} but the observable holds {expected:?}", g.events, g.snap);
+                        fail!(sig_for::<K>(case, slot, "hand-differs"), "{d}: at quiescence before step {step} folding {} events by hand gives {:?} but the observable holds {expected:?}; {cn}", g.events, g.snap);
                     } else if g.complete != 1 {
-                        fail!(sig_for::<K>(case, slot, "hand-incomplete"), "{d}: the initial value was reported complete {} times at quiescence", g.complete);
+                        fail!(sig_for::<K>(case, slot, "hand-incomplete"), "{d}: the initial value was reported complete {} times at quiescence; {cn}", g.complete);
                     } else if (g.done_seen > 0) != done_called || g.done_seen > 1 {
                         fail!(sig_for::<K>(case, slot, "hand-done-flag"), "{d}: Done event seen {} times but done() was {}called", g.done_seen, if done_called { "" } else { "not " });
                     } else if g.flags.0 != true || g.flags.1 != done_called {
@@ -819,6 +920,27 @@ async fn execute<K: Kind>(case: &Case<K::Op>) -> Res {
                     }
                 }
             }
+        }
+    }
+    // Hand consumers: what the generated cancellation really did.
+    for slot in slots.iter() {
+        let Some(h) = &slot.hand else { continue };
+        let g = h.lock().unwrap().clone();
+        if g.cancels > 0 {
+            res.classes.push("hand:recv-cancelled".into());
+            res.classes.push(format!("hand:recv-cancelled:{}", if slot.sp.hops > 0 { "remote" } else { "local" }));
+            if g.cancels_initial > 0 {
+                res.classes.push("hand:recv-cancelled:while-loading-initial".into());
+            }
+            if g.cancels >= 4 {
+                res.classes.push("hand:recv-cancelled:4-or-more-times".into());
+            }
+            if g.events_after_cancel > 0 {
+                res.classes.push("hand:recv-cancelled:then-event".into());
+                nontrivial = true;
+            }
+        } else if case.hand_cancel.iter().any(|b| *b > 0) {
+            res.classes.push("hand:recv-never-pending-long-enough".into());
         }
     }
     res.frames = net.links.iter().map(|l| l.tap_len() as u64 / 2).sum();
@@ -2194,7 +2316,7 @@ impl Kind for KList {
 // Entry points
 // ---------------------------------------------------------------------------------------------
 
-pub const RULE: &str = "parts vec / vec_deque / hash_map / hash_set / list: case = (initial contents, <= 40 ops over the collection's whole mutating API incl. get_mut / iter_mut / RefMut with and without writing, entry API with all combinators, retain, resize both ways, swap_remove(_back/_front), fill, truncate, extend, out-of-range Option-returning variants and no-op variants, optional done() (also twice), 1-3 subscription points inside the sequence or after done(), snapshot or incremental, consumer = mirror | hand-folded recv() stream | mirror of a mirror, local or over 1-2 chmux connections with generated delivery schedule, 0-2 intermediate checkpoints + final one). Oracle: at every checkpoint, after a virtual-time quiescence barrier, every mirror's borrow() is Ok and equals the observable's own contents, is_complete(), is_done() <=> done() was called; the hand-folded event stream gives the same contents and flags; detach() at the end gives the same contents. non-trivial = while a subscription taken before done() exists, an op really wrote through a RefMut / IterMut / entry reference or a retain removed at least one element (list: an element was appended after a subscription whose initial part was non-empty); distinct = distinct case hash";
+pub const RULE: &str = "parts vec / vec_deque / hash_map / hash_set / list: case = (initial contents, <= 40 ops over the collection's whole mutating API incl. get_mut / iter_mut / RefMut with and without writing, entry API with all combinators, retain, resize both ways, swap_remove(_back/_front), fill, truncate, extend, out-of-range Option-returning variants and no-op variants, optional done() (also twice), 1-3 subscription points inside the sequence or after done(), snapshot or incremental, consumer = mirror | hand-folded recv() stream (whose pending recv() futures are dropped after a generated number of polls, cyclic budget list 0..3, and re-issued) | mirror of a mirror, local or over 1-2 chmux connections with generated delivery schedule, 0-2 intermediate checkpoints + final one). Oracle: at every checkpoint, after a virtual-time quiescence barrier, every mirror's borrow() is Ok and equals the observable's own contents, is_complete(), is_done() <=> done() was called; the hand-folded event stream gives the same contents and flags, its take_initial() value / its folded value at InitialComplete equals the observable's contents at the subscription point; detach() at the end gives the same contents. non-trivial = while a subscription taken before done() exists, an op really wrote through a RefMut / IterMut / entry reference or a retain removed at least one element (list: an element was appended after a subscription whose initial part was non-empty), or a hand consumer's recv() future was dropped while pending (after >= 1 pending poll) and a re-issued recv() then delivered an event; distinct = distinct case hash";
 
 fn part<K: Kind>(rep: &mut Report, tier: Tier, cases: u64) {
     let regress: Vec<Case<K::Op>> = runner::load_regress::<Case<K::Op>>("C13", K::NAME).into_iter().map(|(_, c)| c).collect();
